@@ -1,47 +1,87 @@
 ----------------------------- MODULE O2ORepeat -----------------------------
-(* C14, member level (struct): the repeat context fold as implemented (ast.rs:53-78, attr.rs:395-417)
-   against the declarative reading of the README ("repeat all instructions for this member to the
-   following members, until there is a stop_repeat or the members run out"). *)
+(* C14: repeat / skip_repeat / stop_repeat.
+   Member level (ast.rs Field::multiple_from_syn + MemberAttrs::merge) and trait level (attr.rs get_data_type_attrs + TraitAttrCore::merge):
+   each as (a) the declarative reading of the README ("repeat the instructions of the selected categories on every following member
+   until stop_repeat / the end, except on skip_repeat members") and (b) the fold as implemented, with the theorem that (b) refines (a).
+
+   member  == [own |-> SUBSET Cats, rep |-> BOOLEAN, cats |-> SUBSET Cats, stop |-> BOOLEAN, skip |-> BOOLEAN]
+   an effective instruction is <<category, index of the member that wrote it>> *)
 EXTENDS Naturals, Sequences, FiniteSets
 
-\* member == [own |-> SUBSET Cats (which categories of own instructions it carries),
-\*            rep |-> "-" | "all" | a category, stop |-> BOOLEAN, skip |-> BOOLEAN]
-Cats == {"map", "child"}
-RepCats(r) == IF r = "all" THEN Cats ELSE {r}
+Cats == {"map", "child", "ghost"}
+RepCats(m) == IF m.cats = {} THEN Cats ELSE m.cats         \* `repeat` without categories repeats everything
 
-\* an effective instruction is <<category, index of the member that wrote it>>
 OwnInstrs(ms, j) == {<<c, j>> : c \in ms[j].own}
 
 \* ---------------- declarative requirement ----------------
-\* the template in force at member j: the latest earlier member with `repeat`, provided no member
-\* after it up to and including j carries stop_repeat
+\* the template in force at member j: the latest earlier member carrying `repeat`, provided no member after it up to and
+\* including j carries stop_repeat
 Template(ms, j) ==
-  LET C == {i \in 1..(j-1) : ms[i].rep # "-" /\ \A k \in (i+1)..j : ~ms[k].stop} IN
+  LET C == {i \in 1..(j-1) : ms[i].rep /\ \A k \in (i+1)..j : ~ms[k].stop} IN
   IF C = {} THEN 0 ELSE CHOOSE i \in C : \A i2 \in C : i2 <= i
 Eff(ms, j) ==
   LET t == Template(ms, j) IN
-  IF ms[j].rep # "-" \/ ms[j].skip \/ t = 0 THEN OwnInstrs(ms, j)
-  ELSE OwnInstrs(ms, j) \cup {<<c, t>> : c \in (ms[t].own \cap RepCats(ms[t].rep))}
+  IF ms[j].rep \/ ms[j].skip \/ t = 0 THEN OwnInstrs(ms, j)
+  ELSE OwnInstrs(ms, j) \cup {<<c, t>> : c \in (ms[t].own \cap RepCats(ms[t]))}
 \* documented misuse: a new repeat while one is active, without stop_repeat on the same member
-Conflict(ms) == \E j \in DOMAIN ms : ms[j].rep # "-" /\ ~ms[j].stop /\ Template(ms, j) # 0
+Conflict(ms) == \E j \in DOMAIN ms : ms[j].rep /\ ~ms[j].stop /\ Template(ms, j) # 0
 Unrolled(ms) == [j \in DOMAIN ms |-> Eff(ms, j)]
 
 \* ---------------- the fold as implemented ----------------
-\* ctx = 0 (none) or the index of the template member; result <<"ok", merged>> or <<"panic", j>>
+\* ctx = 0 (none) or the index of the template member; result <<"ok", merged>> or <<"conflict", j>>
 RECURSIVE Fold(_, _, _, _)
 Fold(ms, j, ctx, acc) ==
   IF j > Len(ms) THEN <<"ok", acc>>
   ELSE LET c1 == IF ms[j].stop THEN 0 ELSE ctx IN
-       IF ms[j].rep # "-"
-       THEN IF c1 # 0 /\ ~ms[j].stop THEN <<"panic", j>>
+       IF ms[j].rep
+       THEN IF c1 # 0 /\ ~ms[j].stop THEN <<"conflict", j>>
             ELSE Fold(ms, j + 1, j, Append(acc, OwnInstrs(ms, j)))
        ELSE IF c1 # 0
             THEN Fold(ms, j + 1, c1, Append(acc, IF ms[j].skip THEN OwnInstrs(ms, j)
-                                                 ELSE OwnInstrs(ms, j) \cup {<<c, c1>> : c \in (ms[c1].own \cap RepCats(ms[c1].rep))}))
+                                                 ELSE OwnInstrs(ms, j) \cup {<<c, c1>> : c \in (ms[c1].own \cap RepCats(ms[c1]))}))
             ELSE Fold(ms, j + 1, 0, Append(acc, OwnInstrs(ms, j)))
 FoldAll(ms) == Fold(ms, 1, 0, <<>>)
 
 FoldRefinesRequirement(ms) ==
-  IF Conflict(ms) THEN FoldAll(ms)[1] = "panic"            \* documented misuse must be *rejected*, not panic: C15/C16
+  IF Conflict(ms) THEN FoldAll(ms)[1] = "conflict"          \* documented misuse is *rejected* (C15), never a panic (C16)
   ELSE FoldAll(ms) = <<"ok", Unrolled(ms)>>
+
+\* =====================================================================================================
+\* Trait level.   t == [n |-> name, own |-> SUBSET TCats, rep |-> BOOLEAN, cats |-> SUBSET TCats, stop, skip]
+\* =====================================================================================================
+TCats == {"vars", "update", "quick_return", "default_case"}
+TRepCats(t) == IF t.cats = {} THEN TCats ELSE t.cats
+\* "every later instruction of the same name": the template for instruction j
+TTemplate(ts, j) ==
+  LET C == {i \in 1..(j-1) : ts[i].n = ts[j].n /\ ts[i].rep /\ \A k \in (i+1)..j : ts[k].n = ts[j].n => ~ts[k].stop} IN
+  IF C = {} THEN 0 ELSE CHOOSE i \in C : \A i2 \in C : i2 <= i
+TCopied(ts, j) == LET t == TTemplate(ts, j) IN
+  IF ts[j].rep \/ ts[j].skip \/ t = 0 THEN {} ELSE ts[t].own \cap TRepCats(ts[t])
+TEff(ts, j) == {<<c, j>> : c \in ts[j].own} \cup {<<c, TTemplate(ts, j)>> : c \in TCopied(ts, j)}
+\* documented misuse: repeat while one of the same name is active without stop_repeat; an instruction that carries a parameter of a
+\* category the active template *selects* (whether or not the template has a value for it: the selected categories are dictated by
+\* the template, "... will be overriden. Did you forget to use 'skip_repeat'?") -- DESIGN 8.8
+TSelected(ts, j) == LET t == TTemplate(ts, j) IN IF ts[j].rep \/ ts[j].skip \/ t = 0 THEN {} ELSE TRepCats(ts[t])
+TConflict(ts) == \/ \E j \in DOMAIN ts : ts[j].rep /\ ~ts[j].stop /\ TTemplate(ts, j) # 0
+                 \/ \E j \in DOMAIN ts : TSelected(ts, j) \cap ts[j].own # {}
+TUnrolled(ts) == [j \in DOMAIN ts |-> TEff(ts, j)]
+
+\* the fold as implemented: a map from name to the index of the active template (0 = none)
+RECURSIVE TFold(_, _, _, _)
+TFold(ts, j, ctx, acc) ==
+  IF j > Len(ts) THEN <<"ok", acc>>
+  ELSE LET n == ts[j].n
+           c1 == IF ts[j].stop THEN [ctx EXCEPT ![n] = 0] ELSE ctx IN
+       IF ts[j].rep
+       THEN IF c1[n] # 0 /\ ~ts[j].stop THEN <<"conflict", j>>
+            ELSE TFold(ts, j + 1, [c1 EXCEPT ![n] = j], Append(acc, {<<c, j>> : c \in ts[j].own}))
+       ELSE IF c1[n] # 0 /\ ~ts[j].skip
+            THEN LET cp == ts[c1[n]].own \cap TRepCats(ts[c1[n]]) IN
+                 IF TRepCats(ts[c1[n]]) \cap ts[j].own # {} THEN <<"conflict", j>>
+                 ELSE TFold(ts, j + 1, c1, Append(acc, {<<c, j>> : c \in ts[j].own} \cup {<<c, c1[n]>> : c \in cp}))
+            ELSE TFold(ts, j + 1, c1, Append(acc, {<<c, j>> : c \in ts[j].own}))
+TFoldAll(ts, Names) == TFold(ts, 1, [n \in Names |-> 0], <<>>)
+TFoldRefinesRequirement(ts, Names) ==
+  IF TConflict(ts) THEN TFoldAll(ts, Names)[1] = "conflict"
+  ELSE TFoldAll(ts, Names) = <<"ok", TUnrolled(ts)>>
 =============================================================================
